@@ -182,6 +182,10 @@ type scriptedSrc struct {
 	rest     []byte
 	started  bool
 	writerTo bool
+	// eofWithData: the Read that delivers the last byte returns io.EOF together with the data (as readers of
+	// known-length streams do) instead of a separate final (0, io.EOF)
+	eofWithData bool
+	total, sent int
 }
 
 type srcWriterTo struct{ *scriptedSrc }
@@ -214,6 +218,10 @@ func (s *scriptedSrc) Read(p []byte) (int, error) {
 	}
 	n := copy(p, s.rest)
 	s.rest = s.rest[n:]
+	s.sent += n
+	if s.eofWithData && s.total > 0 && s.sent == s.total {
+		return n, io.EOF
+	}
 	return n, nil
 }
 
@@ -324,7 +332,7 @@ func runCafsBehaviour(cfg *cafsCfg, i int, line []byte, r *vutil.BehResult) {
 				return false
 			}
 		}
-		src := &scriptedSrc{chunks: make(chan []byte), idle: make(chan struct{}, 1)}
+		src := &scriptedSrc{chunks: make(chan []byte), idle: make(chan struct{}, 1), eofWithData: cfg.style == "readeof", total: len(content)}
 		var reader io.Reader = src
 		if cfg.style == "writeto" {
 			reader = srcWriterTo{src}
@@ -804,7 +812,7 @@ func cafsReplay(args []string) error {
 	lambda := fl.Int("leaf", 64, "leaf size in bytes")
 	cells := fl.Int("cells", 3, "cells per leaf in the specification")
 	boundary := fl.Bool("boundary", false, "boundary refinement map")
-	style := fl.String("style", "writeto", "writeto|read")
+	style := fl.String("style", "writeto", "writeto|read|readeof (read, the last data arrive together with io.EOF)")
 	crc := fl.Bool("crc", false, "CRC-capable store")
 	prefetch := fl.Int("prefetch", 0, "reader prefetch")
 	cache1 := fl.Bool("cache1", false, "cache of one leaf")
